@@ -62,6 +62,7 @@ func checks() []check {
 		{ID: "C16", Level: "model_checking", Parts: []part{
 			{Name: "histories", Pkg: "pkg/aliyun/client", Run: "^TestVerifC16Histories$", Sets: []string{"weave"}, Weave: []string{"pkg/aliyun/client"}},
 			{Name: "concurrent", Pkg: "pkg/aliyun/client", Run: "^TestVerifC16Concurrent$", Sets: []string{"weave"}, Weave: []string{"pkg/aliyun/client"}},
+			{Name: "tokens-on-the-wire", Pkg: "pkg/aliyun/client", Run: "^TestVerifC16Wire$"},
 			{Name: "race-pass", Pkg: "pkg/aliyun/client", Run: "^TestVerifC16Race$", Race: true, Aux: true},
 		}},
 		{ID: "C17", Level: "model_checking", Parts: []part{
